@@ -1124,11 +1124,123 @@ pub fn run(s: &mut Src, ctx: &mut Ctx) -> Verdict {
     Verdict::Pass
 }
 
+// ---------------------------------------------------------------------------
+// part `dags`: every acyclic import graph on n modules, every candidate import
+// ---------------------------------------------------------------------------
+
+/// Exhaustive over the SHAPE of the import graph rather than over operation sequences (a diamond with a tail needs eight
+/// operations, more than the sequence parts reach). choices: one bit per ordered pair of the n modules (MAIN, A, B, C
+/// [, D]); edge sets with a cycle are skipped. The graph is built by accepted imports (every prefix of an acyclic edge set
+/// is acyclic, so each must be accepted), then EVERY ordered pair (x, y) is tried as `x imports y`:
+/// it must be refused exactly when x == y or y already reaches x through the declarations, a refusal changes nothing,
+/// and the relation stays acyclic. Each candidate is tried on a manager of its own (an accepted import cannot be
+/// undone), and because the cycle search walks HashSets whose iteration order differs per instance, on `REPS` of them.
+const DAG_NAMES: [&str; 5] = ["MAIN", "A", "B", "C", "D"];
+
+fn dag_build(n: usize, edges: &[(usize, usize)]) -> Result<ModuleManager, String> {
+    let mut mgr = ModuleManager::new();
+    for name in DAG_NAMES.iter().take(n).skip(1) {
+        mgr.create_module(*name).map_err(|e| format!("create_module({}): {}", name, e))?;
+    }
+    for (x, y) in edges {
+        mgr.import_from(DAG_NAMES[*x], DAG_NAMES[*y], ImportType::AllRules, "*")
+            .map_err(|e| format!("{} imports {} was refused although the declared relation stays acyclic: {}", DAG_NAMES[*x], DAG_NAMES[*y], e))?;
+    }
+    Ok(mgr)
+}
+
+fn dag_reaches(n: usize, edges: &[(usize, usize)], from: usize, to: usize) -> bool {
+    let mut seen = vec![false; n];
+    let mut stack = vec![from];
+    while let Some(u) = stack.pop() {
+        for (a, b) in edges {
+            if *a == u && !seen[*b] {
+                if *b == to {
+                    return true;
+                }
+                seen[*b] = true;
+                stack.push(*b);
+            }
+        }
+    }
+    false
+}
+
+pub fn run_dags(s: &mut Src, ctx: &mut Ctx) -> Verdict {
+    let n = if ctx.exh >= 5 { 5 } else { 4 };
+    let pairs: Vec<(usize, usize)> = (0..n).flat_map(|x| (0..n).filter(move |y| *y != x).map(move |y| (x, y))).collect();
+    // one binary choice per ordered pair; a pair whose reverse is already present, or that closes a longer cycle, is
+    // not offered (keeps the enumeration on acyclic edge sets only: no wasted leaves)
+    let mut edges: Vec<(usize, usize)> = Vec::new();
+    for (x, y) in &pairs {
+        if dag_reaches(n, &edges, *y, *x) {
+            continue;
+        }
+        if s.below(2) == 1 {
+            edges.push((*x, *y));
+        }
+    }
+    if probe_only() {
+        return Verdict::Pass;
+    }
+    let show = |e: &[(usize, usize)]| e.iter().map(|(x, y)| format!("{}->{}", DAG_NAMES[*x], DAG_NAMES[*y])).collect::<Vec<_>>().join(" ");
+    ctx.describe(|| format!("import graph on {} modules: {}", n, show(&edges)));
+    const REPS: usize = 4;
+    let mut refused_cycles = 0;
+    for x in 0..n {
+        for y in 0..n {
+            if edges.contains(&(x, y)) {
+                continue;
+            }
+            let must_refuse = x == y || dag_reaches(n, &edges, y, x);
+            for rep in 0..REPS {
+                let mut mgr = match dag_build(n, &edges) {
+                    Ok(m) => m,
+                    Err(e) => return Verdict::fail("legal-import-refused", e),
+                };
+                let before = snapshot(&mgr);
+                let r = mgr.import_from(DAG_NAMES[x], DAG_NAMES[y], ImportType::AllRules, "*");
+                match (r.is_ok(), must_refuse) {
+                    (true, true) => {
+                        return Verdict::fail(
+                            if x == y { "self-import-accepted" } else { "cycle-closing-import-accepted" },
+                            format!(
+                                "with the imports [{}] declared, `{} imports {}` was accepted (attempt {} of {} on fresh managers) although {} already reaches {}: the import relation now has a cycle",
+                                show(&edges), DAG_NAMES[x], DAG_NAMES[y], rep + 1, REPS, DAG_NAMES[y], DAG_NAMES[x]
+                            ),
+                        )
+                    }
+                    (false, false) => {
+                        return Verdict::fail(
+                            "legal-import-refused",
+                            format!("with the imports [{}] declared, `{} imports {}` was refused although it closes no cycle: {}", show(&edges), DAG_NAMES[x], DAG_NAMES[y], r.err().map(|e| e.to_string()).unwrap_or_default()),
+                        )
+                    }
+                    (false, true) => {
+                        if x != y {
+                            refused_cycles += 1;
+                        }
+                        if snapshot(&mgr) != before {
+                            return Verdict::fail("refused-import-changed-state", format!("with the imports [{}] declared, the refused `{} imports {}` changed declarations or graph", show(&edges), DAG_NAMES[x], DAG_NAMES[y]));
+                        }
+                    }
+                    (true, false) => {}
+                }
+            }
+        }
+    }
+    if refused_cycles > 0 && edges.len() >= 3 {
+        ctx.label("cycle-through-3+-declared-imports-refused");
+        ctx.nontrivial(hash_of(&(n, &edges)));
+    }
+    Verdict::Pass
+}
+
 pub fn property() -> Property {
     Property {
         id: "C18",
         level: "exploration",
-        rule: "generated: histories of 0..7 operations {create, delete, set_exports(All|None|Specific[1..2 x (Rule|All|Template, pattern)]), add_rule, import(to, from, 5 import types, pattern in {*, r*, *1, exact name}, optional re-export clause)} over module names {A,B,C,MAIN} and rule names {r1,r12,qr1}. Part random: byte-decoded histories biased towards existing modules and towards delete-of-imported / re-create / import-back. Part all-fresh: EVERY history of length <= 4 (thorough 5) over a 45-operation alphabet on {A,B,MAIN} from the fresh manager. Parts eff-*: every history of operations addressing existing modules (the others are refused no-ops, covered by all-fresh): length <= 5 (thorough 6) from the fresh manager, length <= 4 (thorough 5) after `create A; create B`, and length <= 4 over a 35-operation create/delete/import alphabet on {A,B,C,MAIN} after three creates. Each reachable state of an exhaustive tree is judged once (by the leaf that extends it with first choices only). Oracle: import declarations observed through get_imports() must follow the allowed transitions (accepted import appends exactly that declaration; refused import changes neither declarations nor graph; a self-import or an import whose source already reaches the target through declarations between existing modules must be refused); in every judged state the declared import relation among existing modules is acyclic and equals get_import_graph restricted to existing modules, is_rule_visible/get_visible_rules/is_template_visible return Ok for every existing module, and without re-export clauses is_rule_visible and get_visible_rules equal the model (owns, or rule-type import with matching pattern from an existing module that owns the rule and whose export list matches it); with re-export clauses only the bounds (model-visible => visible => owns or some rule import pattern matches) are judged. Non-trivial: the judged part of the history (random: all of it; exhaustive leaf: the steps from its last non-first choice on) contains a delete of a module that another existing module imports, an import refused because it would close a cycle (self-import included), or a re-create of a deleted module; distinct by operation sequence.",
+        rule: "generated: histories of 0..7 operations {create, delete, set_exports(All|None|Specific[1..2 x (Rule|All|Template, pattern)]), add_rule, import(to, from, 5 import types, pattern in {*, r*, *1, exact name}, optional re-export clause)} over module names {A,B,C,MAIN} and rule names {r1,r12,qr1}. Part random: byte-decoded histories biased towards existing modules and towards delete-of-imported / re-create / import-back. Part all-fresh: EVERY history of length <= 4 (thorough 5) over a 45-operation alphabet on {A,B,MAIN} from the fresh manager. Parts eff-*: every history of operations addressing existing modules (the others are refused no-ops, covered by all-fresh): length <= 5 (thorough 6) from the fresh manager, length <= 4 (thorough 5) after `create A; create B`, and length <= 4 over a 35-operation create/delete/import alphabet on {A,B,C,MAIN} after three creates. Each reachable state of an exhaustive tree is judged once (by the leaf that extends it with first choices only). Oracle: import declarations observed through get_imports() must follow the allowed transitions (accepted import appends exactly that declaration; refused import changes neither declarations nor graph; a self-import or an import whose source already reaches the target through declarations between existing modules must be refused); in every judged state the declared import relation among existing modules is acyclic and equals get_import_graph restricted to existing modules, is_rule_visible/get_visible_rules/is_template_visible return Ok for every existing module, and without re-export clauses is_rule_visible and get_visible_rules equal the model (owns, or rule-type import with matching pattern from an existing module that owns the rule and whose export list matches it); with re-export clauses only the bounds (model-visible => visible => owns or some rule import pattern matches) are judged. Part dags: EVERY acyclic import graph on 4 and on 5 modules is built by accepted imports and every ordered pair is tried as a further import on 4 fresh managers each (the cycle search walks hash sets): refused exactly when it is a self import or closes a cycle through the declarations, a refusal changes nothing. Non-trivial: the judged part of the history (random: all of it; exhaustive leaf: the steps from its last non-first choice on) contains a delete of a module that another existing module imports, an import refused because it would close a cycle (self-import included), or a re-create of a deleted module; distinct by operation sequence.",
         assumptions: vec![
             format!(
                 "known-finding exclusion F1 (deletes of imported modules become no-ops) is {} on this tree",
@@ -1142,6 +1254,8 @@ pub fn property() -> Property {
         parts: vec![
             Part { name: "random", run, quick: Budget::Random { cases: 3_000_000, bytes: 90 }, thorough: Budget::Random { cases: 15_000_000, bytes: 90 }, min_nontrivial_pct: 15 },
             // every history of length ≤ 4 (thorough: ≤ 5) over the 45-operation alphabet, from the fresh manager
+            Part { name: "dags4", run: run_dags, quick: Budget::Exhaustive { param: 4 }, thorough: Budget::Exhaustive { param: 4 }, min_nontrivial_pct: 0 },
+            Part { name: "dags5", run: run_dags, quick: Budget::Exhaustive { param: 5 }, thorough: Budget::Exhaustive { param: 5 }, min_nontrivial_pct: 0 },
             Part { name: "all-fresh", run, quick: Budget::Exhaustive { param: 4 }, thorough: Budget::Exhaustive { param: 5 }, min_nontrivial_pct: 0 },
             // every history of effective operations: length ≤ 5 (thorough: ≤ 6) from the fresh manager,
             // length ≤ 4 (thorough: ≤ 5) after `create A; create B`, length ≤ 4 on four modules after three creates
